@@ -279,7 +279,7 @@ def random_interval(rng, ts, te, den=2):
 
 
 def random_kw(rng, T, measure):
-    mrts = rng.choice([0, 0, 0, Fr(1, 4), 1, 2, 4 * T])
+    mrts = rng.choice([0, 0, 0, Fr(1, 4), 1, 2, 4 * T, -1])
     ri = rng.choice([0, 1]) if measure == 'spike' else 0
     mt = rng.choice([0, 0, Fr(1, 2), 1, 2]) if measure in ('sync', 'order', 'dir', 'filter') else 0
     return mrts, ri, mt
